@@ -8,3 +8,5 @@ import "github.com/ossrs/go-oryx-lib/simyield"
 const preemptionPoints = true
 
 func installHook(h func(point string)) { simyield.Hook = h }
+
+func installLock(h func(delta int)) { simyield.Lock = h }
